@@ -347,6 +347,14 @@ def _load_schema_version_sub(xml_version, schema_namespace="", xml_folder=None, 
                                    f"HED version '{save_version}' not cached in: {hed_cache.get_cache_directory()}",
                                    filename=xml_folder)
             hed_schema = load_schema(final_hed_xml_file, schema=schema, name=name)
+        elif e.code == HedExceptions.CANNOT_PARSE_XML:
+            # A damaged copy in the cache (e.g. cut short by an interrupted copy of an older hedtools)
+            # must not block a schema that is installed with hedtools.
+            installed_file = hed_cache.get_hed_version_path(xml_version, library_name,
+                                                            hed_cache.INSTALLED_CACHE_LOCATION)
+            if not installed_file or installed_file == final_hed_xml_file:
+                raise e
+            hed_schema = load_schema(installed_file, schema=schema, name=name)
         else:
             raise e
 
